@@ -1,8 +1,3 @@
-CHECKS = {
-    "C19": {
-        "text": "Kernel-checked theorems over the Lean definitions regenerated from domains/chainwork.go and domains/headers.go on every run: target = sign*mantissa*256^(e-3) (truncating), work = floor(2^256/(t+1)) or 0, antitone on positive targets, FastLog2Floor = floor(log2 n) — for all 2^32 inputs by proof, not enumeration. The translator is validated on every run by evaluating the regenerated definitions (Lean driver) and the Go functions on the same inputs; the Go oracle compares the implementation with an independently written reference (thorough: complete enumeration of both 2^32 domains).",
-        "note": "Trusted: Lean kernel; axioms propext/Classical.choice/Quot.sound; the Go->Lean translator for the straight-line subset (validated by correspondence); math/big modelled as Int. A source edit outside the translatable subset breaks the obligation (reported with the oracle's failing input or no-failing-input-found).",
-        "technique": "Lean 4 proof on translated source (arithmetic lemmas, omega) + differential correspondence",
-    },
-}
+from props_meta import PROPS
+CHECKS = {pid: d["manifest"] for pid, d in PROPS.items() if "manifest" in d}
 NOT_YET = {}
